@@ -66,6 +66,12 @@ def combos(tier):
         longx = "*".join(["(1.59e16*Av/(Tgas+1.0e2)/zeta)"] * 4)
         out.append(("kida+long-modifiers", {"net.kida": kida}, ["kida"], "", {"rate_modifier": {4894: longx}, "ode_modifier": {"C": {"factors": [longx + "*1.3e-17"], "reactants": [["H", "CH"]]}}}, b))
         out.append(("kida+umist", {"net.kida": kida, "net.umist": umist}, ["kida", "umist"], "", {}, b))
+        # elements that occur only bound in molecules (no atomic C or O in the network): every element macro the renormalisation
+        # code refers to must still be one that naunet_macros.h defines
+        bound = [kida[0].replace("C          CH                     H          C2         ", "OH         CO                     CO2        H          "),
+                 kida[0].replace("C          CH                     H          C2         ", "CO2        H                      OH         CO         ").replace("4894", "4895")]
+        assert bound[0] != kida[0] and len(bound[0]) == len(kida[0])
+        out.append(("kida-bound-elements", {"net.kida": bound}, ["kida"], "", {}, b))
         for gm in ("hh93", "hh93i"):
             out.append((f"leeds/{gm}", {"net.leeds": leeds}, ["leeds"], gm, {}, b))
         for gm in ("rr07", "rr07x"):
